@@ -318,6 +318,18 @@ func runParent(ck Check, tier string, seed int64, jobs int) int {
 			defer func() { <-sem }()
 			out := filepath.Join(tmp, fmt.Sprintf("r%d.json", i))
 			cmd := exec.Command(self, "-tier", tier, "-shard", strconv.Itoa(i), "-nshards", strconv.Itoa(n), "-out", out)
+			// watchdog: a worker that is still running long after its internal deadline hangs
+			// (e.g. a deadlock in the code under test); it is killed and reported as a harness error.
+			if ck.Budget != nil {
+				if d := ck.Budget(tier); d > 0 {
+					t := time.AfterFunc(d+5*time.Minute, func() {
+						if cmd.Process != nil {
+							cmd.Process.Kill()
+						}
+					})
+					defer t.Stop()
+				}
+			}
 			cmd.Stdout = os.Stderr
 			logf, _ := os.Create(filepath.Join(tmp, fmt.Sprintf("r%d.log", i)))
 			cmd.Stderr = logf
